@@ -29,6 +29,12 @@ class BaseCore : public InlineCore {
     return callback == kEmpty;
   }
 
+  // A registered callback (other observers of a shared core, a WaitGroup, ...) doesn't mean that result is ready
+  bool Ready() const noexcept {
+    auto callback = _callback.load(std::memory_order_acquire);
+    return callback == kResult;
+  }
+
   template <bool Shared>
   void TransferExecutorTo(BaseCore& callback) noexcept {
     if (!callback._executor) {
